@@ -358,7 +358,11 @@ class PlanJoinTablesQuery:
         item.sub_select.parentheses = False
         step = self.planner.plan_select(item.sub_select)
 
-        where = filters_to_bin_op(item.conditions)
+        conditions = item.conditions
+        if 'or' in self.query_context['binary_ops']:
+            # not use conditions (same rule as in process_table)
+            conditions = []
+        where = filters_to_bin_op(conditions)
 
         # apply table alias
         query2 = Select(targets=[Star()], where=where)
